@@ -247,6 +247,11 @@ class AmplitudeChain(ModelDecay):
             print("Did not find at least one of the state particles from", *event_type)
             raise
 
+        # What is collected class-wide is for this input only
+        cls.all_particles = set()
+        cls.final_particles = set()
+        cartesian = cls.cartesian
+
         fcs = get_from_parser(parsed, "fast_coherent_sum")
         if fcs:
             (fcs,) = fcs
@@ -277,7 +282,11 @@ class AmplitudeChain(ModelDecay):
         )
 
         # Convert the matches into AmplitudeChains
-        line_arr = [cls.from_matched_line(c) for c in cplx_decay_lines]
+        try:
+            line_arr = [cls.from_matched_line(c) for c in cplx_decay_lines]
+        finally:
+            # The option only holds for the input it is given in
+            cls.cartesian = cartesian
 
         # Expand partial lines into complete lines
         new_line_arr = [
